@@ -110,3 +110,58 @@ Definition spec_is_file (t : tree) (p : rpath) : bool :=
   match t_nodes t !! p with Some n => match n_kind n with KFile => true | _ => false end | None => false end.
 Definition spec_is_symlink (t : tree) (p : rpath) : bool :=
   match t_nodes t !! p with Some n => match n_kind n with KLink => true | _ => false end | None => false end.
+
+(* mkdir for one path whose parent is there: an existing directory is left alone *)
+Definition dir_node (mode uid gid : N) : node := mkNode KDir mode uid gid [] None [] false.
+
+Definition spec_mkdir1 (t : tree) (p : rpath) (mode uid gid : N) : tree * (rpath + errkind) :=
+  match p with
+  | [] => (t, inl [])
+  | _ :: d =>
+      match t_nodes t !! d with
+      | None => (t, inr EDoesNotExist)
+      | Some pn =>
+          match n_kind pn with
+          | KDir =>
+              match t_nodes t !! p with
+              | Some n => match n_kind n with KDir => (t, inl p) | _ => (t, inr EIsNotDir) end
+              | None => (mkTree (t_cwd t) (<[p := dir_node mode uid gid]> (t_nodes t)), inl p)
+              end
+          | _ => (t, inr EIsNotDir)
+          end
+      end
+  end.
+
+(* mkdir_p / mkdir_m: every missing ancestor is created, shortest first, with the same mode; the first failure stops it *)
+Fixpoint spec_mkdirs (t : tree) (ps : list rpath) (mode uid gid : N) : tree * (unit + errkind) :=
+  match ps with
+  | [] => (t, inl tt)
+  | p :: rest => match spec_mkdir1 t p mode uid gid with
+                 | (t', inl _) => spec_mkdirs t' rest mode uid gid
+                 | (t', inr e) => (t', inr e)
+                 end
+  end.
+
+(* symlink for one resolved link path and target: a link is only ever created *)
+Definition link_node (mode uid gid : N) (target : rpath) (rel : list N) (tdir : bool) : node :=
+  mkNode KLink mode uid gid [] (Some target) rel tdir.
+
+Definition spec_symlink (t : tree) (lp tp : rpath) (mode uid gid : N) (rel : list N) : tree * (rpath + errkind) :=
+  match t_nodes t !! lp with
+  | Some _ => (t, inr EExistsAlready)
+  | None =>
+      match lp with
+      | [] => (t, inr EParentNotFound)
+      | _ :: d =>
+          match t_nodes t !! d with
+          | None => (t, inr EDoesNotExist)
+          | Some pn =>
+              match n_kind pn with
+              | KDir => (mkTree (t_cwd t) (<[lp := link_node mode uid gid tp rel
+                                                    (match t_nodes t !! tp with Some n => match n_kind n with KDir => true | KLink => n_tdir n | KFile => false end | None => false end)]>
+                                           (t_nodes t)), inl lp)
+              | _ => (t, inr EIsNotDir)
+              end
+          end
+      end
+  end.
